@@ -1317,7 +1317,10 @@ def from_str(x, prec, rnd=round_fast):
     bits. The literal syntax accepted is the same as for Python
     floats.
 
-    TODO: the rounding does not work properly for large exponents.
+    The result is correctly rounded unless the decimal exponent is
+    much larger than both 400 and the number of digits; in that case
+    nearest rounding may be off by one unit in the last place, while
+    directed rounding still never ends up on the wrong side.
     """
     x = x.lower().strip()
     if x in special_str:
@@ -1330,11 +1333,18 @@ def from_str(x, prec, rnd=round_fast):
 
     man, exp = str_to_man_exp(x, base=10)
 
-    # XXX: appropriate cutoffs & track direction
-    # note no factors of 5
-    if abs(exp) > 400:
-        s = from_int(man, prec+10)
-        s = mpf_mul(s, mpf_pow_int(ften, exp, prec+10), prec, rnd)
+    # Exact conversion costs about as much as parsing the digits as long
+    # as the exponent is moderate or comparable to the number of digits.
+    # Beyond that, 10**exp is approximated; the power is then rounded in
+    # the direction that keeps the result a rigorous bound when a
+    # directed rounding mode is requested.
+    if abs(exp) > 400 + bitcount(abs(man))//3:
+        if rnd == round_nearest or shifts_down[rnd][man < 0]:
+            pow_rnd = round_floor
+        else:
+            pow_rnd = round_ceiling
+        s = mpf_pow_int(ften, exp, prec+10, pow_rnd)
+        s = mpf_mul(from_int(man), s, prec, rnd)
     else:
         if exp >= 0:
             s = from_int(man * 10**exp, prec, rnd)
